@@ -192,3 +192,13 @@ def contained(facts, cfg, f, node, memo=None, depth=0):
             return memo[key]
     memo[key] = (True, [])
     return memo[key]
+
+
+def other_loop_over(f, field, what):
+    """A rule that looks for a range-for over `field` found none: if the function iterates over that field with another loop
+    form (index / iterator loop) the shape is not covered -> analysis broken, not a violation."""
+    for n in f.walk():
+        if n["k"] in ("ForStmt", "WhileStmt", "DoStmt"):
+            hdr = [n.get("init"), n.get("cond"), n.get("inc")]
+            if any(isnode(h) and any(x["k"] == "MemberExpr" and x.get("mname") == field for x in walk(h)) for h in hdr):
+                raise AnalysisBroken("%s: iteration over %s is not a range-for (loop at %s): shape not covered" % (what, field, n.get("loc")))
